@@ -7,4 +7,5 @@ MCProg == (1 :> <<[api |-> "touch", key |-> "k", val |-> "", chunks |-> 0]>>) @@
 MCPre == {}
 NoDebris == {}
 NoKeyShards == <<>>
+NoPreRO == {}
 ====
